@@ -132,10 +132,10 @@ theorem find_none (hT : TermOK T F) (hrec : T.usesRecovery = true) (c : Cfg) (ha
     ∃ n c' res, run T af failAt startLoc n c (.recFind none e dropped sl fe) = (c', .done res) ∧
       res ≠ .panic .outOfFuel ∧ n ≤ (F + 1) * (c.states.length + F + 3) := by
   have haf1 : accFuel F (c.states.length + 1) ≤ af := Nat.le_trans (accFuel_mono (by omega)) haf
-  rcases step_find (failAt := failAt) (startLoc := startLoc) hT hrec c hadj haf1 none
+  rcases step_find (F := F) (af := af) (failAt := failAt) (startLoc := startLoc) hT hrec c hadj none
       (fun t i h => by cases h) e dropped sl fe with
     ⟨c', r, hs, hr⟩ | ⟨c', hs, hadj', hlen', _, hcert⟩ | ⟨t, i, _, _, _, h, _⟩ | ⟨t, i, h, _⟩
-  · exact ⟨1, c', r, by rw [run_one, hs], hr, le_units (one_unit F) (by omega)⟩
+  · exact ⟨1, c', r, by rw [run_one, hs], hr haf1, le_units (one_unit F) (by omega)⟩
   · have haf' : accFuel F (c'.states.length + F) ≤ af := Nat.le_trans (accFuel_mono (by omega)) haf
     obtain ⟨n, c'', ph'', d, hrun, hn, hres⟩ :=
       eof_phase_gen (failAt := failAt) (startLoc := startLoc) hT c' hadj' haf'
